@@ -125,10 +125,12 @@ impl ServerWorker {
     #[verifier::external_body]
     pub fn start(idx: usize, factories: Vec<BoxedFactory>, waker_queue: WakerQueue, config: ServerWorkerConfig)
         -> (r: Result<(WorkerHandleAccept, WorkerHandleServer), IoError>)
-        ensures r matches Ok(p) ==> p.0.idx == idx && p.1.idx == idx, (r is Ok) == start_succeeds(idx),
+        ensures r matches Ok(p) ==> p.0.idx == idx && p.1.idx == idx && p.1.stop_tx.id() == started_stop_queue(idx), (r is Ok) == start_succeeds(idx),
             start_config(idx) == config, start_nfactories(idx) == factories@.len(),
     { unimplemented!() }
 }
+/// PROPHECY name: the stop queue of the worker that the (one) ServerWorker::start of `idx` made during the call starts
+pub uninterp spec fn started_stop_queue(idx: usize) -> int;
 /// PROPHECY names: the configuration / the number of service factories the (one) ServerWorker::start of worker `idx`
 /// made during the verified call is given
 pub uninterp spec fn start_config(idx: usize) -> ServerWorkerConfig;
@@ -474,6 +476,10 @@ this.handle_cmd__awaited(cmd);
             else { final(self).waker_queue.sent().len() == old(self).waker_queue.sent().len() + 1
                 && final(self).waker_queue.sent().drop_last() == old(self).waker_queue.sent()
                 && (final(self).waker_queue.sent().last() matches WakerInterest::Worker(h) && h.idx == i) }),
+        // the server's stop handle for that index is now the REPLACEMENT's (a later stop reaches the new worker, not the
+        // dead one's closed queue)   [C06,C08]
+        item matches ServerCommand::WorkerFaulted(i) ==> start_succeeds(i) ==> exists|k: int| 0 <= k < final(self).worker_handles@.len()   // [C06,C08]
+            && (#[trigger] final(self).worker_handles@[k]).idx == i && final(self).worker_handles@[k].stop_tx.id() == started_stop_queue(i),
         // the replacement is started with the server's worker configuration and one factory per service; neither changes   [C06,C08]
         item matches ServerCommand::WorkerFaulted(i) ==> start_config(i) == old(self).worker_config   // [C06,C08]
             && start_nfactories(i) == old(self).services@.len(),
